@@ -472,6 +472,29 @@ impl<E: Endpoint> World<E> {
             }
             o.check(d.len() <= 1400, "-", &self.trace, || format!("C04 step {}: datagram of {} bytes", self.steps, d.len()));
         }
+        // C03: a connection-oriented datagram that does not carry the token this endpoint expects is inert,
+        // whoever sent it (forged, mutated, or a stale / duplicated datagram of the genuine peer)
+        if fed.is_some() && !panicked {
+            let v7 = self.v7;
+            let st = state_of(&before).to_string();
+            let expected: Option<String> = if v7 {
+                if matches!(st.as_str(), "Token" | "PendingConnect" | "Connecting" | "Pending" | "Online") { field(&before, "own=").map(|s| s.to_string()) } else { None }
+            } else {
+                match st.as_str() { "Pending" => field(&before, "tok=").filter(|t| *t != "none").map(|s| s.to_string()), "Online" => field(&before, "own=").filter(|t| *t != "none").map(|s| s.to_string()), _ => None }
+            };
+            let carried: Option<String> = fed_txt.as_ref().and_then(|t| { let f: Vec<&str> = t.split('|').collect(); if f[0] == "L" && !v7 { None } else { Some(f[1].to_string()) } });
+            let conn_oriented = fed_txt.as_ref().map(|t| v7 || !t.starts_with("L|")).unwrap_or(true);
+            if let Some(exp) = expected {
+                if conn_oriented && carried.as_deref() != Some(exp.as_str()) {
+                    let exception7 = v7 && st == "PendingConnect" && fed_txt.as_deref().map(|t| t.starts_with("C|ffffffff|") && t.contains("|tk:")).unwrap_or(false);
+                    let sent = out.sent.len();
+                    let inert = before == after && out.events.is_empty() && (sent == 0 || (exception7 && sent == 1));
+                    let dbytes = hex(&fed.as_ref().unwrap().bytes);
+                    o.check(inert, "-", &self.trace, || format!("C03 step {}: datagram {} (parsed {:?}) without the agreed token {} changed {} -> {} / sent {} / events {:?}", self.steps, dbytes, fed_txt, exp, before, after, sent, out.events));
+                    o.count("c03-foreign-feeds");
+                }
+            }
+        }
         let conn_warns: Vec<&String> = out.warns.iter().filter(|w| *w != "p" && *w != "r").collect();
         let res = if panicked { "panic".to_string() } else {
             format!("res={} sent={} ev={} warn={} tick={} fp={}",
@@ -771,32 +794,7 @@ fn run_proto<E: Endpoint>(a: &Args, o: &Shared, proto: &str, modes: &[&str]) {
                             4 => { if !d.is_empty() { d[0] ^= *r.pick(&[0x10u8, 0x20, 0x40, 0x80, 0x08, 0x04]); } }
                             _ => {}
                         }
-                        let before = w.fp(side);
-                        let n_before = (w.s[side].del.len(), w.s[side].ready);
-                        let steps_before = w.steps;
-                        // what token does the reader see, and which one is expected?
-                        let parsed = E::dgram(&d, recv_hint(v7, &before)).map(|x| x.0);
-                        let st = state_of(&before).to_string();
-                        let expected: Option<String> = if v7 {
-                            if matches!(st.as_str(), "Token" | "PendingConnect" | "Connecting" | "Pending" | "Online") { field(&before, "own=").map(|s| s.to_string()) } else { None }
-                        } else {
-                            match st.as_str() { "Pending" => field(&before, "tok=").filter(|t| *t != "none").map(|s| s.to_string()), "Online" => field(&before, "own=").filter(|t| *t != "none").map(|s| s.to_string()), _ => None }
-                        };
-                        let carried: Option<String> = parsed.as_ref().and_then(|t| { let f: Vec<&str> = t.split('|').collect(); if f[0] == "L" && !v7 { None } else { Some(f[1].to_string()) } });
-                        let conn_oriented = parsed.as_ref().map(|t| v7 || !t.starts_with("L|")).unwrap_or(true);
-                        let bag_before = w.bag[side].len();
                         w.apply(o, &Label::FeedRaw(side, d.clone()));
-                        let _ = steps_before;
-                        if let Some(exp) = expected {
-                            if conn_oriented && carried.as_deref() != Some(exp.as_str()) && !w.s[side].dead {
-                                let after = w.fp(side);
-                                let sent = w.bag[side].len() - bag_before;
-                                let exception7 = v7 && st == "PendingConnect" && parsed.as_deref().map(|t| t.starts_with("C|ffffffff|") && t.contains("|tk:")).unwrap_or(false);
-                                let inert = before == after && (w.s[side].del.len(), w.s[side].ready) == n_before && (sent == 0 || (exception7 && sent == 1));
-                                o.lock().unwrap().check(inert, "-", &trace, || format!("C03: datagram {} (parsed {:?}) without the agreed token {} changed {} -> {} / sent {}", hex(&d), parsed, exp, before, after, sent));
-                                o.lock().unwrap().count("c03-foreign-feeds");
-                            }
-                        }
                     }
                 }
             }
